@@ -8,7 +8,7 @@ verus! {
 //@include dtype_optcast.rs
 //@include lemmas/window.rs
 
-pub type T = ${T};
+pub type T = f64;   // plain family: T: Number, every element counts
 pub type U = ${U};
 
 //@const crate=tea-core name=EPS
@@ -91,30 +91,42 @@ pub open spec fn sum_spec(w: Seq<Option<real>>, mp: int, o: U) -> bool {
     if cnt(w) >= mp { !isnull(o) && oval(o) == ps(w, 1) } else { isnull(o) }
 }
 
-//@fn name=ts_vsum_to crate=tea-rolling ctx="pub trait RollingValidFeature" props=C01,C05
+
+//@fn name=ts_sum_to crate=tea-rolling ctx="pub trait RollingFeature" props=C01,C05,C06,C08 arith=C05
 //@types T::Inner=${TI}
-//@sig fn ts_vsum_to<V: RollingDrivers<T>, O: Vec1<U>>(this: &V, window: usize, min_periods: Option<usize>, out: Option<&mut O::Buf>) -> (r: Option<O>)
+//@sig fn ts_sum_to<V: RollingDrivers<T>, O: Vec1<U>>(this: &V, window: usize, min_periods: Option<usize>, out: Option<&mut O::Buf>) -> (r: Option<O>)
 //@spec
     requires
-        canon_seq(this.view()),
+        forall|i: int| 0 <= i < this.view().len() ==> !nan(#[trigger] this.view()[i]),
         out matches Some(o) ==> buf_fresh(o, this.view().len()),
         (window == 0 && out.is_none() && this.view().len() > 0) ==> panic_allowed(),
+        this.view().len() <= 0x7fff_ffff,      // A-LEN
     ensures
         window >= 1 ==> delivered_each(r, match out { Some(o) => Some(final(o).written()), None => None }, this.view().len(),       // #C05 one_output_per_input
-            |i: int, o: U| sum_spec(vals(wnd(this.view(), window, i)), mp_eff(min_periods, window, 0), o)),                              // #C01,C05 value_and_mask
-//@closure 1 name=CloVsum trait="RollingFn<T, U>" params="v_rm: Option<T>, v: T" ret="(res: U)" push="Call { rm: v_rm, v: v, out: __r }" caps="mut n: usize, mut sum: ${TI}, min_periods: usize"
+            |i: int, o: U| sum_spec(vals(wnd(this.view(), window, i)), mp_eff(min_periods, window, 0), o)),                              // #C01,C05,C06 value_and_mask
+//@closure 1 name=CloSum trait="RollingFn<T, U>" params="v_rm: Option<T>, v: T" ret="(res: U)" push="Call { rm: v_rm, v: v, out: __r }" caps="mut n: usize, mut sum: f64, min_periods: usize"
 //@closure 1 extra
     open spec fn hist(&self) -> Seq<Call<T, U>> { self.h@ }
-    open spec fn elem_ok(v: T) -> bool { canon(v) }
+    open spec fn elem_ok(v: T) -> bool { !nan(v) }
 //@closure 1 inv
-        &&& hist_wf(self.h@) && canon_seq(adds(self.h@))
-        &&& self.n as int == cnt(vals(win(self.h@)))
-        &&& self.sum.rval() == ps(vals(win(self.h@)), 1) && !self.sum.is_nanv()
+        &&& hist_wf(self.h@) && canon_seq(adds(self.h@)) && all_some(vals(adds(self.h@)))
+        &&& sums_ok(vals(win(self.h@)), self.n, self.sum, self.sum, self.sum, self.sum, 1)         // #C01 state_describes_window
+        &&& self.min_periods >= 0
         &&& outs_ok(self.h@, |w: Seq<T>, o: U| sum_spec(vals(w), self.min_periods as int, o))
 //@at closure 1 first
+        let ghost w0 = vals(win(self.h@));
+        let ghost wp = w0.push(val(v));
         proof {
-            broadcast use a_real;
+            broadcast use a_real, a_real_cmp;
+            ax_lits();
+            reveal_with_fuel(rpow, 4);
             lemma_step_vals(self.h@, v_rm, v);
+            assert(val(v).is_some());
+            if v_rm.is_some() {
+                let k = nrm(self.h@) as int;
+                if k < self.h@.len() { assert(vals(adds(self.h@))[k].is_some()); assert(adds(self.h@).push(v)[k] == adds(self.h@)[k]); }
+                assert(val(v_rm.unwrap()).is_some());
+            }
         }
 //@at closure 1 last
         proof {
@@ -122,11 +134,15 @@ pub open spec fn sum_spec(w: Seq<Option<real>>, mp: int, o: U) -> bool {
             lemma_fifo_step(self.h@, c);
             if v_rm.is_some() { assert(v_rm.unwrap() == adds(self.h@).push(v)[nrm(self.h@) as int]); }
             assert(adds(self.h@.push(c)) =~= adds(self.h@).push(v));
+            assert(vals(adds(self.h@.push(c))) =~= vals(adds(self.h@)).push(val(v)));
+            assert(sum_spec(vals(win(self.h@).push(v)), self.min_periods as int, __r));       // #C01,C05 output_is_window_statistic
             lemma_outs_step(self.h@, c, |w: Seq<T>, o: U| sum_spec(vals(w), self.min_periods as int, o));
+            assert(sums_ok(vals(win(self.h@.push(c))), n, sum, sum, sum, sum, 1));              // #C01 state_describes_window
         }
 //@at body first
     let ghost mp0 = min_periods;
     let ghost out0 = out;
+    proof { ax_lits(); }
 //@at body last
     proof {
         let h = __clo1.h@;
@@ -142,24 +158,24 @@ pub open spec fn sum_spec(w: Seq<Option<real>>, mp: int, o: U) -> bool {
     }
 //@end
 
-//@fn name=ts_vmean_to crate=tea-rolling ctx="pub trait RollingValidFeature" props=C01,C05,C06,C08 arith=C05
+//@fn name=ts_mean_to crate=tea-rolling ctx="pub trait RollingFeature" props=C01,C05,C06,C08 arith=C05
 //@types T::Inner=${TI}
-//@sig fn ts_vmean_to<V: RollingDrivers<T>, O: Vec1<U>>(this: &V, window: usize, min_periods: Option<usize>, out: Option<&mut O::Buf>) -> (r: Option<O>)
+//@sig fn ts_mean_to<V: RollingDrivers<T>, O: Vec1<U>>(this: &V, window: usize, min_periods: Option<usize>, out: Option<&mut O::Buf>) -> (r: Option<O>)
 //@spec
     requires
-        canon_seq(this.view()),
+        forall|i: int| 0 <= i < this.view().len() ==> !nan(#[trigger] this.view()[i]),
         out matches Some(o) ==> buf_fresh(o, this.view().len()),
         (window == 0 && out.is_none() && this.view().len() > 0) ==> panic_allowed(),
         this.view().len() <= 0x7fff_ffff,      // A-LEN
     ensures
         window >= 1 ==> delivered_each(r, match out { Some(o) => Some(final(o).written()), None => None }, this.view().len(),       // #C05 one_output_per_input
             |i: int, o: U| mean_spec(vals(wnd(this.view(), window, i)), mp_eff(min_periods, window, 0), o)),                              // #C01,C05,C06 value_and_mask
-//@closure 1 name=CloVmean trait="RollingFn<T, U>" params="v_rm: Option<T>, v: T" ret="(res: U)" push="Call { rm: v_rm, v: v, out: __r }" caps="mut n: usize, mut sum: f64, min_periods: usize"
+//@closure 1 name=CloMean trait="RollingFn<T, U>" params="v_rm: Option<T>, v: T" ret="(res: U)" push="Call { rm: v_rm, v: v, out: __r }" caps="mut n: usize, mut sum: f64, min_periods: usize"
 //@closure 1 extra
     open spec fn hist(&self) -> Seq<Call<T, U>> { self.h@ }
-    open spec fn elem_ok(v: T) -> bool { canon(v) }
+    open spec fn elem_ok(v: T) -> bool { !nan(v) }
 //@closure 1 inv
-        &&& hist_wf(self.h@) && canon_seq(adds(self.h@))
+        &&& hist_wf(self.h@) && canon_seq(adds(self.h@)) && all_some(vals(adds(self.h@)))
         &&& sums_ok(vals(win(self.h@)), self.n, self.sum, self.sum, self.sum, self.sum, 1)         // #C01 state_describes_window
         &&& self.min_periods >= 0
         &&& outs_ok(self.h@, |w: Seq<T>, o: U| mean_spec(vals(w), self.min_periods as int, o))
@@ -171,6 +187,12 @@ pub open spec fn sum_spec(w: Seq<Option<real>>, mp: int, o: U) -> bool {
             ax_lits();
             reveal_with_fuel(rpow, 4);
             lemma_step_vals(self.h@, v_rm, v);
+            assert(val(v).is_some());
+            if v_rm.is_some() {
+                let k = nrm(self.h@) as int;
+                if k < self.h@.len() { assert(vals(adds(self.h@))[k].is_some()); assert(adds(self.h@).push(v)[k] == adds(self.h@)[k]); }
+                assert(val(v_rm.unwrap()).is_some());
+            }
         }
 //@at closure 1 last
         proof {
@@ -178,6 +200,7 @@ pub open spec fn sum_spec(w: Seq<Option<real>>, mp: int, o: U) -> bool {
             lemma_fifo_step(self.h@, c);
             if v_rm.is_some() { assert(v_rm.unwrap() == adds(self.h@).push(v)[nrm(self.h@) as int]); }
             assert(adds(self.h@.push(c)) =~= adds(self.h@).push(v));
+            assert(vals(adds(self.h@.push(c))) =~= vals(adds(self.h@)).push(val(v)));
             assert(mean_spec(vals(win(self.h@).push(v)), self.min_periods as int, __r));       // #C01,C05 output_is_window_statistic
             lemma_outs_step(self.h@, c, |w: Seq<T>, o: U| mean_spec(vals(w), self.min_periods as int, o));
             assert(sums_ok(vals(win(self.h@.push(c))), n, sum, sum, sum, sum, 1));              // #C01 state_describes_window
@@ -201,24 +224,24 @@ pub open spec fn sum_spec(w: Seq<Option<real>>, mp: int, o: U) -> bool {
     }
 //@end
 
-//@fn name=ts_vvar_to crate=tea-rolling ctx="pub trait RollingValidFeature" props=C01,C05,C06,C08 arith=C05
+//@fn name=ts_var_to crate=tea-rolling ctx="pub trait RollingFeature" props=C01,C05,C06,C08 arith=C05
 //@types T::Inner=${TI}
-//@sig fn ts_vvar_to<V: RollingDrivers<T>, O: Vec1<U>>(this: &V, window: usize, min_periods: Option<usize>, out: Option<&mut O::Buf>) -> (r: Option<O>)
+//@sig fn ts_var_to<V: RollingDrivers<T>, O: Vec1<U>>(this: &V, window: usize, min_periods: Option<usize>, out: Option<&mut O::Buf>) -> (r: Option<O>)
 //@spec
     requires
-        canon_seq(this.view()),
+        forall|i: int| 0 <= i < this.view().len() ==> !nan(#[trigger] this.view()[i]),
         out matches Some(o) ==> buf_fresh(o, this.view().len()),
         (window == 0 && out.is_none() && this.view().len() > 0) ==> panic_allowed(),
         this.view().len() <= 0x7fff_ffff,      // A-LEN
     ensures
         window >= 1 ==> delivered_each(r, match out { Some(o) => Some(final(o).written()), None => None }, this.view().len(),       // #C05 one_output_per_input
             |i: int, o: U| var_spec(vals(wnd(this.view(), window, i)), mp_eff(min_periods, window, 2), o)),                              // #C01,C05,C06 value_and_mask
-//@closure 1 name=CloVvar trait="RollingFn<T, U>" params="v_rm: Option<T>, v: T" ret="(res: U)" push="Call { rm: v_rm, v: v, out: __r }" caps="mut n: usize, mut sum: f64, mut sum2: f64, min_periods: usize"
+//@closure 1 name=CloVar trait="RollingFn<T, U>" params="v_rm: Option<T>, v: T" ret="(res: U)" push="Call { rm: v_rm, v: v, out: __r }" caps="mut n: usize, mut sum: f64, mut sum2: f64, min_periods: usize"
 //@closure 1 extra
     open spec fn hist(&self) -> Seq<Call<T, U>> { self.h@ }
-    open spec fn elem_ok(v: T) -> bool { canon(v) }
+    open spec fn elem_ok(v: T) -> bool { !nan(v) }
 //@closure 1 inv
-        &&& hist_wf(self.h@) && canon_seq(adds(self.h@))
+        &&& hist_wf(self.h@) && canon_seq(adds(self.h@)) && all_some(vals(adds(self.h@)))
         &&& sums_ok(vals(win(self.h@)), self.n, self.sum, self.sum2, self.sum, self.sum, 2)         // #C01 state_describes_window
         &&& self.min_periods >= 2
         &&& outs_ok(self.h@, |w: Seq<T>, o: U| var_spec(vals(w), self.min_periods as int, o))
@@ -230,6 +253,12 @@ pub open spec fn sum_spec(w: Seq<Option<real>>, mp: int, o: U) -> bool {
             ax_lits();
             reveal_with_fuel(rpow, 4);
             lemma_step_vals(self.h@, v_rm, v);
+            assert(val(v).is_some());
+            if v_rm.is_some() {
+                let k = nrm(self.h@) as int;
+                if k < self.h@.len() { assert(vals(adds(self.h@))[k].is_some()); assert(adds(self.h@).push(v)[k] == adds(self.h@)[k]); }
+                assert(val(v_rm.unwrap()).is_some());
+            }
         }
 //@at closure 1 last
         proof {
@@ -237,6 +266,7 @@ pub open spec fn sum_spec(w: Seq<Option<real>>, mp: int, o: U) -> bool {
             lemma_fifo_step(self.h@, c);
             if v_rm.is_some() { assert(v_rm.unwrap() == adds(self.h@).push(v)[nrm(self.h@) as int]); }
             assert(adds(self.h@.push(c)) =~= adds(self.h@).push(v));
+            assert(vals(adds(self.h@.push(c))) =~= vals(adds(self.h@)).push(val(v)));
             if cnt(wp) >= 2 { lemma_var_forms(ps(wp, 1), ps(wp, 2), cnt(wp) as real); }
             assert(var_spec(vals(win(self.h@).push(v)), self.min_periods as int, __r));       // #C01,C05 output_is_window_statistic
             lemma_outs_step(self.h@, c, |w: Seq<T>, o: U| var_spec(vals(w), self.min_periods as int, o));
@@ -261,24 +291,24 @@ pub open spec fn sum_spec(w: Seq<Option<real>>, mp: int, o: U) -> bool {
     }
 //@end
 
-//@fn name=ts_vstd_to crate=tea-rolling ctx="pub trait RollingValidFeature" props=C01,C05,C06,C08 arith=C05
+//@fn name=ts_std_to crate=tea-rolling ctx="pub trait RollingFeature" props=C01,C05,C06,C08 arith=C05
 //@types T::Inner=${TI}
-//@sig fn ts_vstd_to<V: RollingDrivers<T>, O: Vec1<U>>(this: &V, window: usize, min_periods: Option<usize>, out: Option<&mut O::Buf>) -> (r: Option<O>)
+//@sig fn ts_std_to<V: RollingDrivers<T>, O: Vec1<U>>(this: &V, window: usize, min_periods: Option<usize>, out: Option<&mut O::Buf>) -> (r: Option<O>)
 //@spec
     requires
-        canon_seq(this.view()),
+        forall|i: int| 0 <= i < this.view().len() ==> !nan(#[trigger] this.view()[i]),
         out matches Some(o) ==> buf_fresh(o, this.view().len()),
         (window == 0 && out.is_none() && this.view().len() > 0) ==> panic_allowed(),
         this.view().len() <= 0x7fff_ffff,      // A-LEN
     ensures
         window >= 1 ==> delivered_each(r, match out { Some(o) => Some(final(o).written()), None => None }, this.view().len(),       // #C05 one_output_per_input
             |i: int, o: U| std_spec(vals(wnd(this.view(), window, i)), mp_eff(min_periods, window, 2), o)),                              // #C01,C05,C06 value_and_mask
-//@closure 1 name=CloVstd trait="RollingFn<T, U>" params="v_rm: Option<T>, v: T" ret="(res: U)" push="Call { rm: v_rm, v: v, out: __r }" caps="mut n: usize, mut sum: f64, mut sum2: f64, min_periods: usize"
+//@closure 1 name=CloStd trait="RollingFn<T, U>" params="v_rm: Option<T>, v: T" ret="(res: U)" push="Call { rm: v_rm, v: v, out: __r }" caps="mut n: usize, mut sum: f64, mut sum2: f64, min_periods: usize"
 //@closure 1 extra
     open spec fn hist(&self) -> Seq<Call<T, U>> { self.h@ }
-    open spec fn elem_ok(v: T) -> bool { canon(v) }
+    open spec fn elem_ok(v: T) -> bool { !nan(v) }
 //@closure 1 inv
-        &&& hist_wf(self.h@) && canon_seq(adds(self.h@))
+        &&& hist_wf(self.h@) && canon_seq(adds(self.h@)) && all_some(vals(adds(self.h@)))
         &&& sums_ok(vals(win(self.h@)), self.n, self.sum, self.sum2, self.sum, self.sum, 2)         // #C01 state_describes_window
         &&& self.min_periods >= 2
         &&& outs_ok(self.h@, |w: Seq<T>, o: U| std_spec(vals(w), self.min_periods as int, o))
@@ -290,6 +320,12 @@ pub open spec fn sum_spec(w: Seq<Option<real>>, mp: int, o: U) -> bool {
             ax_lits();
             reveal_with_fuel(rpow, 4);
             lemma_step_vals(self.h@, v_rm, v);
+            assert(val(v).is_some());
+            if v_rm.is_some() {
+                let k = nrm(self.h@) as int;
+                if k < self.h@.len() { assert(vals(adds(self.h@))[k].is_some()); assert(adds(self.h@).push(v)[k] == adds(self.h@)[k]); }
+                assert(val(v_rm.unwrap()).is_some());
+            }
         }
 //@at closure 1 last
         proof {
@@ -297,6 +333,7 @@ pub open spec fn sum_spec(w: Seq<Option<real>>, mp: int, o: U) -> bool {
             lemma_fifo_step(self.h@, c);
             if v_rm.is_some() { assert(v_rm.unwrap() == adds(self.h@).push(v)[nrm(self.h@) as int]); }
             assert(adds(self.h@.push(c)) =~= adds(self.h@).push(v));
+            assert(vals(adds(self.h@.push(c))) =~= vals(adds(self.h@)).push(val(v)));
             if cnt(wp) >= 2 {
                 lemma_var_forms(ps(wp, 1), ps(wp, 2), cnt(wp) as real);
                 if biased_var(wp) > 0real { lemma_scaled_pos(biased_var(wp), cnt(wp) as real); }
